@@ -142,6 +142,7 @@ def run(repo: Repo, chk: Check):
     chk.guarded(r09f, repo, chk)
     chk.guarded(r09_exact_integral, repo, chk)
     chk.guarded(r09_opcode_is_text, repo, chk)
+    chk.guarded(r09a_rewrites, repo, chk)
 
 
 # ---------------------------------------------------------------------- R09.b
@@ -628,3 +629,63 @@ def r09_opcode_is_text(repo: Repo, chk: Check, R="R09.b"):
         chk.ok(R, "types:IC10Instruction.to_string:a missing opcode cannot be printed", {"how": "checked" if checked else "string concatenation"})
     else:
         raise AnalysisError("IC10Instruction.to_string: how self.op enters the line was not understood")
+
+
+# ---------------------------------------------------------------------- R09.a (opcodes assigned to an existing instruction)
+def r09a_rewrites(repo: Repo, chk: Check, R="R09.a"):
+    """<instr>.op = <expr>: every value the expression can take is an opcode IC10 has.  A value chosen by a table key is evaluated
+    for every key of that table."""
+    from ..tables import const_dict
+    from ..consteval import S
+    n = 0
+    for mn in ("utils", "generate_code", "compile_pass"):
+        m = repo.mod(mn)
+        for q, fn in m.funcs.items():
+            if isinstance(fn, ast.Lambda):
+                continue
+            stores = [st for st in ast.walk(fn) if isinstance(st, ast.Assign) and any(isinstance(t, ast.Attribute) and t.attr == "op" and not (isinstance(t.value, ast.Name) and t.value.id == "self") for t in st.targets)]
+            if not stores:
+                continue
+            cfg = CFG(fn)
+            for st in stores:
+                n += 1
+                where = f"{m.path}:{st.lineno} in {q}"
+                key = f"{mn}:{q}:{norm(st)[:70]}"
+                # names that a guard ties to the keys of a module-level table
+                splits = {}
+                ids = [x.id for x in cfg.nodes_of(st)]
+                for t, p in (cfg.guards(ids[0]) if ids else []):
+                    if p and isinstance(t, ast.Compare) and len(t.ops) == 1 and isinstance(t.ops[0], ast.In) and isinstance(t.left, ast.Name) and isinstance(t.comparators[0], ast.Name):
+                        try:
+                            tab = const_dict(repo, mn, t.comparators[0].id)
+                        except Exception:
+                            tab = None
+                        if tab:
+                            splits[t.left.id] = sorted(tab)
+                flags = [a.arg for a in fn.args.args if a.arg in {x.id for x in ast.walk(st.value) if isinstance(x, ast.Name)} and a.arg not in splits]
+                import itertools
+                combos = [dict()]
+                for name, keys in splits.items():
+                    combos = [dict(c, **{name: k}) for c in combos for k in keys]
+                for f_ in flags:
+                    combos = [dict(c, **{f_: b}) for c in combos for b in (False, True)]
+                bad, unknown = [], False
+                for c in combos:
+                    fe = FnEval(repo, m, fn, {k: S(v) for k, v in c.items()})
+                    nid = fe.node_ids(st)
+                    got = fe.eval(st.value, nid[0]) if nid else TOP
+                    if got is TOP:
+                        unknown = True
+                        continue
+                    for op in got:
+                        if isinstance(op, str) and op not in ISA and not label_def(op):
+                            bad.append((c, op))
+                if bad:
+                    chk.bad(R, key, "the opcode of an instruction is rewritten to " + "; ".join(f"{op!r} for {c}" for c, op in bad[:3]) + ": IC10 has no such instruction",
+                            {"bad": [(str(c), op) for c, op in bad[:6]]}, where)
+                elif unknown:
+                    chk.ok(R, key + " [value not enumerable]", None, vacuous=True)
+                else:
+                    chk.ok(R, key, {"cases": len(combos)})
+    if n == 0:
+        raise AnalysisError("no statement that rewrites the opcode of an instruction found (expected the branch fusion and the tail call)")
